@@ -204,6 +204,46 @@ fn check_acknowledged(name: &str, first: &[u8], second: &[u8], acc: &mut Acc) {
         eofs.push((Some(e), false));
         eofs.push((Some(e), true));
     }
+    // the writing side is broken: neither form may report success, and the command form must not
+    // go on to read
+    for mode in 0..2 {
+        let sh: Sh = Rc::new(RefCell::new(Ctx::new(vec![], vec![], 0)));
+        let s = Scripted::new(sh, stream.clone(), Chunking::Greedy);
+        s.st.borrow_mut().fail_write_call = Some(0);
+        let mut tr = PacketTransport { source: s.clone() };
+        let r: Result<Option<bool>, String> = guarded(|| {
+            if mode == 0 {
+                let mut fut = Box::pin(tr.write_packet_with_ack(&command));
+                match drive(fut.as_mut()) {
+                    Driven::Done(r) => Some(r.is_ok()),
+                    Driven::Blocked => None,
+                }
+            } else {
+                let mut fut = Box::pin(tr.read_packet_with_ack::<Resp>());
+                match drive(fut.as_mut()) {
+                    Driven::Done(r) => Some(r.is_ok()),
+                    Driven::Blocked => None,
+                }
+            }
+        });
+        acc.count("executions", 1);
+        acc.count("acknowledged_executions", 1);
+        let form = if mode == 0 { "write_packet_with_ack" } else { "read_packet_with_ack" };
+        let bad = match &r {
+            Ok(Some(false)) => {
+                if mode == 0 && s.consumed() != 0 {
+                    Some(format!("{form}: the command could not be written, yet {} bytes were read", s.consumed()))
+                } else {
+                    acc.count("broken_pipe_reported", 1);
+                    None
+                }
+            }
+            other => Some(format!("{form} on a connection whose writing side is broken: expected an error, got {other:?}")),
+        };
+        if let Some(b) = bad {
+            acc.violation(viol(format!("c04/acknowledged/{name}/mode={form}/broken-pipe"), format!("stream {name} ({})\n{b}", hex_short(&stream)), 1));
+        }
+    }
     for (eof_at, reset) in eofs {
         for mode in 0..2 {
             let st = dbx::explore(1, 1_000_000, |ctx| {
@@ -496,7 +536,7 @@ pub fn run(run: &RunInfo) -> Summary {
         transitions: acc.get("transitions") + acc.get("header_cases"),
         traces_validated: execs,
         distinct_nontrivial: acc.set_len("outcomes") + acc.get("header_agreed"),
-        rule: format!("all sequences of k<=3 packets over a 9-packet alphabet (empty body, 1-2 byte bodies, bodies of 253/254/255/256/300 bytes): for streams of <=12 (thorough: 16) bytes every partition into read() results with a Pending+wake before any subset of polls; for longer streams every placement of <= {budget} deviations (1-byte, half, all-but-one read, Pending); end of stream, and a connection reset, at every byte offset; the acknowledged forms write_packet_with_ack / read_packet_with_ack over 12 first packets (acknowledgement, two negative acknowledgements, the alphabet) x 3 following packets x end of stream / reset at every offset of the first packet and the next header x one read deviation; writer/reader header agreement for {} body lengths with a sentinel packet behind. distinct_nontrivial = distinct (stream, end position, result list) outcomes + agreeing body lengths", lens.len()),
+        rule: format!("all sequences of k<=3 packets over a 9-packet alphabet (empty body, 1-2 byte bodies, bodies of 253/254/255/256/300 bytes): for streams of <=12 (thorough: 16) bytes every partition into read() results with a Pending+wake before any subset of polls; for longer streams every placement of <= {budget} deviations (1-byte, half, all-but-one read, Pending); end of stream, and a connection reset, at every byte offset; the acknowledged forms write_packet_with_ack / read_packet_with_ack over 12 first packets (acknowledgement, two negative acknowledgements, the alphabet) x 3 following packets x end of stream / reset at every offset of the first packet and the next header x one read deviation, and with a broken writing side; writer/reader header agreement for {} body lengths with a sentinel packet behind. distinct_nontrivial = distinct (stream, end position, result list) outcomes + agreeing body lengths", lens.len()),
         exhaustive: true,
         required_witnesses: vec![
             "all chunkings of a short stream explored".into(),
